@@ -654,6 +654,10 @@ enum Ev {
     /// the wrapped stream is Pending for this many milliseconds
     Gap(u16),
     Fail,
+    /// the *consumer* is busy for this long before it polls again (the server handles a request
+    /// inline between two reads); only generated right after an item and never next to a Gap, so
+    /// that whatever follows is already there when the stream is polled again
+    Busy(u16),
 }
 
 #[derive(Clone, Debug, Serialize, Deserialize)]
@@ -685,6 +689,7 @@ impl Stream for Scripted {
                 Some(Ev::Item(x)) => return Poll::Ready(Some(Ok(x))),
                 Some(Ev::Fail) => return Poll::Ready(Some(Err(io::Error::new(io::ErrorKind::ConnectionReset, "scripted")))),
                 Some(Ev::Gap(ms)) => self.sleep = Some(Box::pin(tokio::time::sleep(std::time::Duration::from_millis(ms as u64)))),
+                Some(Ev::Busy(_)) => {}
                 None if self.hang => return Poll::Pending,
                 None => return Poll::Ready(None),
             }
@@ -708,7 +713,22 @@ fn idle_case() -> impl Strategy<Value = IdleCase> {
         5 => prop_oneof![Just(0u16), 1u16..5, 5u16..60, Just(99), Just(100), Just(101), 100u16..400].prop_map(Ev::Gap),
         1 => Just(Ev::Fail),
     ];
-    (prop_oneof![Just(0u16), 1u16..5, Just(20), Just(100)], vec(ev, 0..=10), any::<bool>()).prop_map(|(timeout_ms, events, hang)| IdleCase { timeout_ms, events, hang })
+    let ev = prop_oneof![12 => ev, 2 => prop_oneof![1u16..5, 5u16..60, Just(99), Just(100), Just(101), 100u16..400].prop_map(Ev::Busy)];
+    (prop_oneof![Just(0u16), 1u16..5, Just(20), Just(100)], vec(ev, 0..=10), any::<bool>()).prop_map(|(timeout_ms, events, hang)| {
+        // a Busy stays only directly after an item and not in front of a Gap
+        let mut kept: Vec<Ev> = Vec::new();
+        for (i, e) in events.iter().enumerate() {
+            if let Ev::Busy(_) = e {
+                let after_item = matches!(kept.last(), Some(Ev::Item(_)));
+                let before_gap_or_busy = matches!(events.get(i + 1), Some(Ev::Gap(_)) | Some(Ev::Busy(_)));
+                if !after_item || before_gap_or_busy {
+                    continue;
+                }
+            }
+            kept.push(*e);
+        }
+        IdleCase { timeout_ms, events: kept, hang }
+    })
 }
 
 fn run_idle(c: &IdleCase, rec: &mut Rec) -> CaseResult {
@@ -721,10 +741,24 @@ fn run_idle(c: &IdleCase, rec: &mut Rec) -> CaseResult {
         .map_err(|e| crate::core::Fail::new("harness-init", e.to_string()))?;
     let inner = Scripted { events: c.events.iter().copied().collect(), hang: c.hang, sleep: None };
     let t = std::time::Duration::from_millis(c.timeout_ms as u64);
+    // busy_after[k] = how long the consumer works after it has received its k-th item (1-based)
+    let mut busy_after: Vec<u64> = vec![0];
+    for e in &c.events {
+        match e {
+            Ev::Item(_) => busy_after.push(0),
+            Ev::Busy(ms) => *busy_after.last_mut().unwrap() += *ms as u64,
+            _ => {}
+        }
+    }
     let got: Vec<Out> = rt.block_on(async move {
         let mut ts = TimeoutStream::new(inner, t);
         let mut out = Vec::new();
+        let mut items = 0usize;
         loop {
+            if let Some(ms) = busy_after.get(items).copied().filter(|ms| *ms > 0 && items > 0) {
+                busy_after[items] = 0;
+                tokio::time::sleep(std::time::Duration::from_millis(ms)).await;
+            }
             match tokio::time::timeout(std::time::Duration::from_secs(3600), ts.next()).await {
                 Err(_) => {
                     out.push(Out::Silent);
@@ -734,7 +768,10 @@ fn run_idle(c: &IdleCase, rec: &mut Rec) -> CaseResult {
                     out.push(Out::End);
                     break;
                 }
-                Ok(Some(Ok(x))) => out.push(Out::Item(x)),
+                Ok(Some(Ok(x))) => {
+                    out.push(Out::Item(x));
+                    items += 1;
+                }
                 // the server stops reading a connection at the first error
                 Ok(Some(Err(e))) => {
                     out.push(if e.kind() == io::ErrorKind::TimedOut { Out::TimedOut } else { Out::OtherErr });
@@ -757,6 +794,9 @@ fn run_idle(c: &IdleCase, rec: &mut Rec) -> CaseResult {
     for ev in &c.events {
         match ev {
             Ev::Gap(ms) => idle += *ms as u64,
+            // what follows a busy period is already there when the stream is polled again: a
+            // stream that has something to deliver is not idle, however long the consumer took
+            Ev::Busy(_) => {}
             Ev::Item(_) | Ev::Fail => {
                 if tmo > 0 && idle.abs_diff(tmo) <= 1 {
                     gaps_near = true;
@@ -802,6 +842,9 @@ fn run_idle(c: &IdleCase, rec: &mut Rec) -> CaseResult {
     if gaps_near {
         rec.class("silence-within-1ms-of-the-timeout");
     }
+    if tmo > 0 && c.events.windows(2).any(|w| matches!((w[0], w[1]), (Ev::Busy(b), Ev::Item(_)) if b as u64 > tmo)) {
+        rec.class("consumer-busy-longer-than-the-timeout,next-item-already-there");
+    }
     if c.events.iter().any(|e| matches!(e, Ev::Gap(g) if *g > 0)) && c.events.iter().filter(|e| matches!(e, Ev::Item(_))).count() >= 2 {
         rec.nontrivial();
     }
@@ -819,6 +862,12 @@ fn run_idle(c: &IdleCase, rec: &mut Rec) -> CaseResult {
         vfail!(sig, "timeout {} ms, script {:?} then {}: got {:?}, expected {:?}{}", c.timeout_ms, c.events, if c.hang { "silence" } else { "end" }, got, want, alt.map(|a| format!(" or {a:?}")).unwrap_or_default());
     }
     Ok(())
+}
+
+/// the TimeoutStream sub-property, also registered under C11 (a request that has arrived must be
+/// read and answered however long the previous one took to handle)
+pub fn idle_wrapper_sub(name: &'static str, quick: u64, thorough: u64) -> Box<dyn crate::core::Sub> {
+    crate::core::prop(name, quick, thorough, |_t: crate::core::Tier| idle_case(), run_idle)
 }
 
 pub fn check() -> Option<Check> {
@@ -908,7 +957,7 @@ pub fn check() -> Option<Check> {
     Some(Check {
         id: "C17",
         level: "exploration",
-        rule: "cases = (0..3 inbound messages with lengths from {1,2,3,255,256,257,300} ∪ 1..300 ∪ {511,512,4096,65535}, a cyclic read-chunk script with sizes ≥1 and zero-progress would-block steps, a close position {never, on a boundary, strictly inside a prefix/body, reset}, 0..3 outbound messages, a cyclic write-acceptance script, native vs default vectored write, send points). Small scope: for every message-length shape whose framed stream is ≤10 (quick) / ≤13 (thorough) octets, ALL compositions of the stream into read chunks (plain and with a would-block before every chunk) × ALL close positions, and ALL compositions into write acceptances. Non-trivial = distinct case AND (a read-chunk boundary falls inside a length prefix OR a vectored write accepted < 2 octets). server_idle_timeout_wrapper: the server's TimeoutStream around a scripted stream (items, silences of 0..400 ms, errors, end or lasting silence; timeout off / 1-4 / 20 / 100 ms) on a paused tokio clock: items pass unchanged and in order, only a silence longer than the timeout becomes an error",
+        rule: "cases = (0..3 inbound messages with lengths from {1,2,3,255,256,257,300} ∪ 1..300 ∪ {511,512,4096,65535}, a cyclic read-chunk script with sizes ≥1 and zero-progress would-block steps, a close position {never, on a boundary, strictly inside a prefix/body, reset}, 0..3 outbound messages, a cyclic write-acceptance script, native vs default vectored write, send points). Small scope: for every message-length shape whose framed stream is ≤10 (quick) / ≤13 (thorough) octets, ALL compositions of the stream into read chunks (plain and with a would-block before every chunk) × ALL close positions, and ALL compositions into write acceptances. Non-trivial = distinct case AND (a read-chunk boundary falls inside a length prefix OR a vectored write accepted < 2 octets). server_idle_timeout_wrapper: the server's TimeoutStream around a scripted stream (items, silences of 0..400 ms, errors, end or lasting silence; timeout off / 1-4 / 20 / 100 ms) on a paused tokio clock: items pass unchanged and in order, only a silence longer than the timeout becomes an error; the consumer may be busy (1-400 ms) between two reads with the next item already waiting, which is not a silence",
         assumptions: vec![
             "zero-length frames and Ok(0) from a write are outside the stated domain and not generated",
             "the scripted socket wakes immediately after a would-block; a silent peer is modelled as Pending without wake",
